@@ -1,6 +1,7 @@
 import SpoxModel.Lemmas.Subgraph
 import SpoxModel.Generated.SubgraphSpecs
 import SpoxModel.Generated.CallbackSites
+import SpoxModel.Generated.CallGraphData
 /-!
 # C19 — subgraph callbacks run exactly once, with the prescribed arguments
 
@@ -56,6 +57,29 @@ def extra : List String :=
     calls `_reconstruct` or reads `_constructor`. -/
 theorem sites_good : extra = [] ∧ "spox._graph.subgraph" ∈ Generated.CallbackSites.invokers := by
   decide
+
+/-- The call graph of `src/spox` extracted on this run. -/
+abbrev cg : CallGraph.Graph := Generated.CallGraphData.graph
+
+/-- Certificate check for the generated call graph: the translator's set of functions contains every
+    entry point (build, inference, value propagation, inspection, copy / pickle hooks, Graph methods,
+    inlining, Var methods), is closed under every call edge, and contains no function that invokes
+    (or lets escape) a stored callback. -/
+theorem callgraph_safe : cg.safe Generated.CallGraphData.reachMask = true := by decide +kernel
+
+/-- **No path to a stored callback.** In the call graph of /repo as it is now, no function that
+    invokes a stored callback (`subgraph`, `Graph._reconstruct`, anything reading `_constructor`) is
+    reachable from any entry point of a later step. (`Reach` is the inductive reachability relation
+    over the generated edge list.) -/
+theorem no_callback_reachable (es : List Nat) (hes : ∀ e ∈ es, e ∈ cg.allEntries) (x : Nat)
+    (hx : CallGraph.Reach cg.edges es x) : x ∉ cg.sinks := by
+  intro hmem
+  have h1 := reach_in_mask cg _ callgraph_safe es hes x hx
+  have h2 : CallGraph.inMask Generated.CallGraphData.reachMask x = false := by
+    have := callgraph_safe
+    simp only [CallGraph.Graph.safe, Bool.and_eq_true, List.all_eq_true] at this
+    simpa using this.2 x hmem
+  rw [h1] at h2; cases h2
 
 theorem spec_of_table {m c : String} {s : CtorSpec} (h : (m, c, s) ∈ table) : s ∈ accepted c := by
   have := List.all_eq_true.1 generated_good (m, c, s) h
@@ -206,12 +230,14 @@ theorem args_fresh (calls : List (CtorSpec × Env × Callbacks)) :
 /-! ## `called_once` -/
 
 /-- **Called once.** After a successful constructor call and *any* sequence of builds, inference
-    re-runs, value propagation and inspection, every callback has been invoked exactly as often as
-    it was passed to the constructor (once per role) — for the call sites as they are in /repo now. -/
+    re-runs, value propagation, inspection, copies, Graph-method calls, inlining and Var-method calls
+    — each step running whatever is reachable from its entry functions in the call graph extracted
+    from /repo — every callback has been invoked exactly as often as it was passed to the
+    constructor (once per role). -/
 theorem called_once (spec : CtorSpec) (env : Env) (cbs : Callbacks) (w w1 : World) (node : Node)
     (h : construct spec env cbs w = (.ok node, w1)) (steps : List Step) (c : Nat) :
-    (runSteps extra node steps w1).count c = w.count c + (cbIds cbs spec.subgraphs).count c := by
-  rw [sites_good.1, runSteps_nil]
+    (runSteps cg node steps w1).count c = w.count c + (cbIds cbs spec.subgraphs).count c := by
+  rw [runSteps_safe cg _ callgraph_safe]
   unfold construct at h
   generalize hrs : runSubgraphs env cbs spec.subgraphs w = r at h
   obtain ⟨res, w'⟩ := r
@@ -230,7 +256,7 @@ theorem called_once (spec : CtorSpec) (env : Env) (cbs : Callbacks) (w w1 : Worl
 theorem called_exactly_once (spec : CtorSpec) (env : Env) (cbs : Callbacks) (w w1 : World) (node : Node)
     (h : construct spec env cbs w = (.ok node, w1)) (steps : List Step) (c : Nat)
     (hnew : w.count c = 0) (hrole : (cbIds cbs spec.subgraphs).count c = 1) :
-    (runSteps extra node steps w1).count c = 1 := by
+    (runSteps cg node steps w1).count c = 1 := by
   rw [called_once spec env cbs w w1 node h steps c, hnew, hrole]
 
 /-- Also when the constructor raises (a later callback is malformed, a type expression fails), no
@@ -247,13 +273,13 @@ theorem called_at_most_once (spec : CtorSpec) (env : Env) (cbs : Callbacks) (w :
     simp only at this ⊢
     cases lookupGraph gs spec.outGraph <;> exact this
 
-/-- Had a build path re-run the stored constructor (`_reconstruct`), one build after an If would
-    bring each branch to two invocations. -/
+/-- Had a build path re-run the stored constructor (an edge from a build entry point to
+    `_reconstruct`), one build after an If would bring each branch to two invocations. -/
 theorem reconstruct_counterexample :
     let cbs : Callbacks := fun nm => if nm = "else_branch" then (0, .returnsVars 1) else (1, .returnsVars 1)
     let r := construct ifSpec (envOf [] [] []) cbs ⟨[], 0⟩
-    r.1.toOption.map (fun node =>
-      (runSteps ["spox._graph.Graph.to_onnx"] node [.build] r.2).count 0) = some 2 := by
+    let g : CallGraph.Graph := ⟨3, [(0, 1), (1, 2)], [2], [("build", [0])]⟩
+    r.1.toOption.map (fun node => (runSteps g node [.build] r.2).count 0) = some 2 := by
   decide
 
 /-! ## `out_count` -/
@@ -345,7 +371,7 @@ example :
     let env := envOf [("v_initial", [some (f32 [2]).ty, some (.seq (f32 []).ty)])] [] []
     let r := construct v21_loop env cbs ⟨[], 0⟩
     r.1.toOption.map (fun node => (node.outVariadic,
-        (runSteps extra node [.build, .infer, .build, .valueProp, .build] r.2).count 5)) = some (2, 1)
+        (runSteps ⟨1, [], [], [("build", [0])]⟩ node [.build, .infer, .build, .valueProp, .copy, .inline, .build] r.2).count 5)) = some (2, 1)
       ∧ r.2.events.map (·.args) = [[0, 1, 2, 3]] := by
   decide
 
